@@ -83,7 +83,7 @@ ASSUMPTIONS = [
     "`names` and `pipelines` have no single-value form (class docstrings and the repository's own tests require "
     "TypeError / per-observer lists); BolometerCamera documents list-only foil_detectors assignment",
 ]
-QUICK = dict(cases=3000, workers=2, timecap=25)
+QUICK = dict(cases=2400, workers=2, timecap=25)
 THOROUGH = dict(cases=300000, workers=16, timecap=300)
 REQUIRED = {"registry": 2, "assign_scalar": 300, "assign_seq": 1200, "wronglen": 2500, "getter": 10000,
             "snapshot_members": 20000, "lookup_index": 500, "lookup_slice": 800, "lookup_name": 300, "invariant": 5000,
